@@ -1,5 +1,7 @@
 package main
 
+import "golang.org/x/tools/go/ssa"
+
 func init() {
 	for _, id := range []string{"C01", "C03", "C04", "C05", "C07", "C08", "C09", "C11", "C12", "C13", "C14", "C15", "C16", "C17", "C18", "C19", "C20"} {
 		id := id
@@ -23,12 +25,27 @@ func checkFormulaProperty(p *Program, c *Check, id string) {
 	if extra, ok := extraRules[id]; ok {
 		extra(p, c)
 	}
-	if id != "C09" {
-		// every property is stated for every request whatever was processed before it: nothing reachable from a
-		// handler may write memory that outlives the request (C09 runs the same rules as part of its own claim)
+	switch id {
+	case "C09":
+		// runs the shared-state rules as part of its own claim (extraRules)
+	case "C20":
+		// "any sequence of requests against one server process": nothing reachable from a handler writes memory that
+		// outlives the request
 		sh := NewSharedInfo(p)
 		ruleSHR1(p, c, sh, p.requestPath(true))
 		ruleSHR4(p, c)
+	default:
+		// every property is stated for every request: the handler layer must hand the library a request value that
+		// carries nothing over from an earlier request (no pooled or package-level request objects in package main).
+		// Shared state inside the library is the subject of C02, C09, C10 and C20.
+		sh := NewSharedInfo(p)
+		var handlerLayer []*ssa.Function
+		for _, f := range p.requestPath(true) {
+			if pkgNameOf(f) == "main" {
+				handlerLayer = append(handlerLayer, f)
+			}
+		}
+		ruleSHR1Handlers(p, c, sh, handlerLayer)
 	}
 }
 
